@@ -173,6 +173,10 @@ fn run_case(mask: usize, volatile: &BTreeSet<(Uuid, String)>, fresh: &BTreeMap<U
                 }
             }
             Some(now) => {
+                let dead = |m: &BTreeMap<String, Vec<String>>| m.get("class").map(|c| c.iter().any(|x| x == "recycled" || x == "tombstone")).unwrap_or(false);
+                if !dead(attrs) && dead(now) {
+                    bad.push((if user_created { "user_entry_deleted".to_string() } else { "shipped_entry_deleted".to_string() }, format!("entry {:?} was live before the upgrade and is in the recycle bin (or a tombstone) after it", attrs.get("name").or(attrs.get("attributename")))));
+                }
                 if user_created {
                     for (a, vals) in attrs {
                         if DERIVED.contains(&a.as_str()) {
